@@ -37,7 +37,7 @@ func init() {
 	evals["p12pweq"] = evalP12pweq
 	evals["bigticket"] = evalBigticket
 	// (kf.go is initialised after c14.go / c16.go / c17.go: file order) the recorded inputs run with their property
-	for _, prop := range []string{"C01", "C07", "C14", "C16", "C17"} {
+	for _, prop := range []string{"C01", "C07", "C09", "C14", "C16", "C17", "C18"} {
 		prop, g := prop, gens[prop]
 		if g == nil {
 			continue
@@ -45,6 +45,19 @@ func init() {
 		gens[prop] = func(r *rng, tier string, emit func(string)) {
 			g(r, tier, emit)
 			genKnownFindings(prop, newRng(0x6b66), emit)
+			if prop == "C09" {
+				for i := 0; i < 4; i++ {
+					emit("sm2pubv " + strconv.Itoa(100+i))
+				}
+			}
+			if prop == "C18" {
+				for _, k := range []string{"sm2", "p256", "p384", "rsa", "missing"} {
+					emit("p12file " + k)
+				}
+			}
+			if prop == "C14" {
+				genSigdec(newRng(0x7364), emit)
+			}
 			if prop == "C01" {
 				genSm2signi(newRng(0x7369), emit)
 			}
